@@ -13,7 +13,7 @@ use oracle::{bch, tables};
 use serde_json::json;
 
 pub const ID: &str = "C04";
-pub const FAMS: [&str; 2] = ["cell", "auto-everything"];
+pub const FAMS: [&str; 3] = ["cell", "auto-everything", "no-level-beyond-q"];
 
 pub fn jobs(ctx: &Ctx) -> Vec<Job> {
     let caps = &ctx.caps;
@@ -67,12 +67,69 @@ pub fn jobs(ctx: &Ctx) -> Vec<Job> {
             });
         }
     }
+    // no level given and more data than level Q can hold in version 40 (but not more than level L can):
+    // the default is Q, so no symbol exists; a build that answers with a symbol of a lower level does
+    // not "default to level Q"
+    let per = ctx.tier.pick(40, ctx.scale(400));
+    for class in 0..3usize {
+        let q40 = caps.cap(40, tables::Q, class);
+        let l40 = caps.cap(40, tables::L, class);
+        for i in 0..per {
+            k += 1;
+            let len = match i {
+                0 => q40 + 1,
+                1 => l40,
+                2 => caps.cap(40, tables::M, class),
+                3 => caps.cap(40, tables::M, class) + 1,
+                _ => q40 + 1 + (mix(ctx.seed, k as u64) as usize) % (l40 - q40),
+            };
+            jobs.push(Job {
+                fam: FAMS[2],
+                class,
+                mode: if i % 2 == 0 { Some(class) } else { None },
+                version: if i % 3 == 0 { Some(40) } else { None },
+                mask: if i % 4 == 0 { None } else { Some(i % 8) },
+                len,
+                gen: k % GEN_COUNT,
+                seed: mix(ctx.seed, k as u64),
+                ..Default::default()
+            });
+        }
+    }
     jobs
+}
+
+/// family "no-level-beyond-q": whatever comes back must not be a symbol of another level
+fn observe_beyond_q(st: &mut Stats, job: &Job) {
+    let cfg = job.config();
+    match adapter::build(&cfg) {
+        Outcome::Ok(qr) => {
+            let m = adapter::matrix_of(&qr);
+            let (f1, _) = decode::read_format_copies(&m);
+            let (l1, _, _) = bch::decode_format(f1);
+            let reported = qr.ecl.map(adapter::level_no);
+            flag(
+                st,
+                ID,
+                ("default-level-not-q".into(), format!("no level was given and {} characters exceed what level Q holds in version 40, yet a symbol came back: reported level {:?}, format information says {}", cfg.input.len(), reported.map(|l| tables::LEVEL_NAMES[l]), tables::LEVEL_NAMES[l1])),
+                job,
+                false,
+            );
+        }
+        Outcome::Panic(p) => flag(st, ID, ("no-symbol".into(), format!("build panicked: {p}")), job, false),
+        _ => {
+            st.count("no_level_given_beyond_q_capacity_refused", 1);
+            st.distinct(job.key(&cfg.input));
+        }
+    }
 }
 
 pub fn observe(ctx: &Ctx, st: &mut Stats, job: &Job) {
     let cfg = job.config();
     st.eval();
+    if job.fam == FAMS[2] {
+        return observe_beyond_q(st, job);
+    }
     let exp = match symbol::expect(&cfg, &ctx.caps) {
         Ok(e) => e,
         Err(why) => {
@@ -160,7 +217,7 @@ pub fn run(ctx: &Ctx) -> Report {
     let st = pool::run(&jobs, ctx.remaining(), |st, job, _| observe(ctx, st, job));
     let mut rep = Report::new(
         st,
-        "jobs = every (version, level, mask) cell (1280, enumerated completely) with the 16 forced/automatic option combinations rotating (level only left automatic in Q cells), + builds with nothing forced per (version, class); both 15-bit format copies are read at the ISO positions and must equal BCH(15,5)(level,mask)^0x5412 computed by polynomial division, both 18-bit version blocks must equal BCH(18,6)(version), and version/level/mask/mode/size fields must equal what the symbol physically encodes (mode from the decoded mode indicator), what was forced, and level Q by default; distinct key = (options, len, payload hash); every case non-trivial",
+        "jobs = every (version, level, mask) cell (1280, enumerated completely) with the 16 forced/automatic option combinations rotating (level only left automatic in Q cells), + builds with nothing forced per (version, class) + builds with no level given and more data than level Q holds in version 40 (any symbol returned there is not level Q); both 15-bit format copies are read at the ISO positions and must equal BCH(15,5)(level,mask)^0x5412 computed by polynomial division, both 18-bit version blocks must equal BCH(18,6)(version), and version/level/mask/mode/size fields must equal what the symbol physically encodes (mode from the decoded mode indicator), what was forced, and level Q by default; distinct key = (options, len, payload hash); every case non-trivial",
     );
     rep.exhaustive = Some(true);
     rep.expected_sets = vec![("version_level_mask", 1280), ("level_mask_words", 32), ("version_words", 34), ("forced_option_combos", 16)];
